@@ -125,6 +125,7 @@ pub fn default_guards() -> Vec<String> {
         "alter_drop_column",                     // D17, D17b
         "alter_add_column",                      // D16
         "more_than_3_relations",                 // D15, F3 (tables + indexes)
+        "index_name_of_dropped_table_reused",    // X2 (the generator numbers its index names and never reuses one)
     ]
     .iter()
     .map(|s| s.to_string())
